@@ -65,6 +65,9 @@ Unspecified  == [kind |-> "any"]
 
 (* prog = [shapes |-> <<shape...>>, regs |-> <<[path, segs, iface]...>>]                          *)
 (* call = [path, iface ("" = no INTERFACE field), member, args (typed values), noreply]           *)
+(* The other header flags of a call (NO_AUTO_START, ALLOW_INTERACTIVE_AUTHORIZATION) are carried by   *)
+(* the generated cases as `xflags` (0..3, a bit each); no clause depends on them: whether a reply is   *)
+(* owed is decided by the NO_REPLY_EXPECTED bit alone, whatever else is set.                           *)
 VerdictsFor(prog, call, ifname, devs) ==
   LET nodes == NodeOfPath(prog.regs, call.path) IN
   IF nodes = {} THEN {Err(UnknownObject)}
